@@ -52,6 +52,10 @@ CountsSum(e) == Len(e.g) >= 1 =>
 (* proportionality, so twice that limit is used.                                                 *)
 Budget(e) == Len(e.g) <= 2 * Max2(64 * e.n, 16384)
 
+(* engine level (harfbuzz.Buffer.Shape): with monotone cluster levels no rune is lost from the cluster  *)
+(* sequence: glyphs removed at the start of the run hand their cluster to their neighbour, so the      *)
+(* smallest cluster is the run start (at the shaping API this is what makes CountsSum hold)             *)
+StartCovered(e) == Len(e.g) >= 1 => \E i \in DOMAIN e.g : Cl(e.g[i]) = e.start
 (* engine level (harfbuzz.Buffer.Shape): positions stay in step with the glyph infos *)
 PosSync(e) == e.npos = Len(e.g)
 =============================================================================
